@@ -20,10 +20,11 @@ type OracleC09 struct {
 	prevQ    map[string]oracletypes.QueryMeta
 	prevTBR  *big.Int
 	have     bool
+	everCycle map[string]bool // query ids that were in the cycle list at some block end (governance may replace the list while a round is open)
 }
 
 func NewOracleC09() *OracleC09 {
-	return &OracleC09{counters: newCounters(), prevTips: map[string]*big.Rat{}, prevQ: map[string]oracletypes.QueryMeta{}}
+	return &OracleC09{counters: newCounters(), prevTips: map[string]*big.Rat{}, prevQ: map[string]oracletypes.QueryMeta{}, everCycle: map[string]bool{}}
 }
 
 func (o *OracleC09) ID() string { return "C09" }
@@ -50,6 +51,14 @@ func (o *OracleC09) AfterBlock(c *Chain, b *BlockCtx) []*Violation {
 	curQ := map[string]oracletypes.QueryMeta{}
 	for _, q := range v.Queries() {
 		curQ[roundKey(q.QueryID, q.Meta.Id)] = q.Meta
+	}
+	for _, qd := range v.Cyclelist() {
+		o.everCycle[string(QueryID(qd))] = true
+	}
+	for _, p := range c.Cfg.CycleList {
+		if qd, err := SpotQueryData(p[0], p[1]); err == nil {
+			o.everCycle[string(QueryID(qd))] = true
+		}
 	}
 	tbrNow := v.ModuleBalance("time_based_rewards").BigInt()
 	defer func() { o.prevTips, o.prevQ, o.prevTBR, o.have = curTips, curQ, tbrNow, true }()
@@ -255,10 +264,7 @@ func (o *OracleC09) AfterBlock(c *Chain, b *BlockCtx) []*Violation {
 	// time-based rewards: paid = pool before EndBlock - pool now
 	tbrBefore := new(big.Int).Add(o.prevTBR, mintedToTBR)
 	paid := new(big.Int).Sub(tbrBefore, tbrNow)
-	cycle := map[string]bool{}
-	for _, qd := range v.Cyclelist() {
-		cycle[string(QueryID(qd))] = true
-	}
+	cycle := o.everCycle
 	var eligible []*AggInfo
 	reps := v.Reports()
 	for i := range aggs {
@@ -303,7 +309,7 @@ func (o *OracleC09) AfterBlock(c *Chain, b *BlockCtx) []*Violation {
 		if reporterWithCommissionAboveOne(v) {
 			cls += ":commission-rate-outside-0-1"
 		}
-		out = append(out, o.v(b.H, "credits", cls, "block %d: rewards of %s were paid (tips + time-based) but the credits changed by %s in total", b.H, total.FloatString(6), sumObs.FloatString(18)))
+		out = append(out, o.v(b.H, "credits", cls, "block %d: rewards of %s were paid (tips + time-based) but the credits changed by %s in total (time-based paid %s = pool before %s [prev %s + minted %s] - pool now %s; %d aggregates, %d eligible)", b.H, total.FloatString(6), sumObs.FloatString(18), paid, tbrBefore, o.prevTBR, mintedToTBR, tbrNow, len(aggs), len(eligible)))
 	}
 	// per reporter (only when no delegator backs two of the paid reporters)
 	owner := map[string]string{}
